@@ -165,8 +165,12 @@ int process_tarball(sqfs_dir_iterator_t *it, sqfs_writer_t *sqfs)
 		ret = it->next(it, &ent);
 		if (ret > 0)
 			break;
-		if (ret < 0)
+		if (ret < 0) {
+			/* not every failure path below prints a reason */
+			fputs("Failed to read the next entry from the "
+			      "tar archive, aborting.\n", stderr);
 			return -1;
+		}
 
 		if (ent->mtime < 0)
 			ent->mtime = 0;
